@@ -32,7 +32,7 @@ func runC29(c *core.Ctx) error {
 		return err
 	}
 	defer l.Close()
-	bases, err := chooseBases(c, l, c.Pick(3, 11), c.Pick(1, 14), c.Pick(150, 400))
+	bases, err := chooseBases(c, l, c.Pick(4, 12), c.Pick(1, 14), c.Pick(150, 400))
 	if err != nil {
 		return err
 	}
